@@ -288,6 +288,14 @@ class Gen:
             out.append("(define %s %s)" % (fb, val))
             env.append((fb, "int"))
             env.append((fa, ("proc", 0)))
+        shadowable = [nm for nm in self.vars_of(env, "int") if nm not in RESERVED]
+        if self.derived and shadowable and r.random() < 0.08:
+            # a (let () ...) / (let* () ...) FIRST in the body whose own body defines a name that is also a variable of the
+            # enclosing body: the definition is local to that let; the enclosing variable is used afterwards, unchanged
+            v = r.choice(shadowable)
+            self.note("local-define-in-empty-let")
+            out.append("(%s () (define %s %s) %s)" % (r.choice(["let", "let*"]), v, self.int_(env, d - 2), self.tick(v)))
+            out.append(self.tick(v))
         for _ in range(r.choice([0, 0, 0, 1, 2])):
             out.append(self.tick(self.int_(env, d - 1)))
         out.append(self.tick(self.int_(env, d)))
@@ -373,6 +381,8 @@ class Gen:
                 # parameter of the enclosing procedure. In the `fixed` spelling the same procedures take one list argument.
                 nm = self.fresh("v")
                 style = r.randrange(4)
+                if style == 0 and not self.loops:
+                    style = 1           # no recursive procedures in streams that are mutated afterwards
                 args = [self.int_(env, 1) for _ in range(r.randrange(1, 5))]
                 args2 = [self.int_(env, 1) for _ in range(r.randrange(0, 3))]
                 pick_rest = r.random() < 0.5
@@ -409,7 +419,27 @@ class Gen:
                     inner = "((lambda xs (car xs)) 1 2)" if rest else "((lambda (xs) (car xs)) (list 1 2))"
                     forms.append("(define (%s xs) (+ %s (car xs)))" % (nm, inner))
                     forms.append("(%s (list %s))" % (nm, " ".join(args)))
-            elif k < 0.81:
+            elif k < 0.80:
+                # closures that leave the call INSIDE a data structure held by a local variable, from a procedure with internal
+                # definitions whose last expression is that variable (not a call): they still see the call's parameters and
+                # internal definitions afterwards
+                nm = self.fresh("e")
+                kk, st = r.randrange(1, 9), r.randrange(2, 6)
+                holder = r.choice(["(list get (lambda () (* k step)))", "(vector get (lambda () (* k step)))",
+                                   "(cons get (lambda () (* k step)))"])
+                sugar = self.spelling.get("define") != "lambda"
+                body = "(define step %d) (define (get) (+ k step)) (define r %s) %s" % (
+                    st, holder, r.choice(["r", "(if (< k 0) '() r)"]))
+                forms.append("(define (%s k) %s)" % (nm, body) if sugar else "(define %s (lambda (k) %s))" % (nm, body))
+                h = self.fresh("g")
+                forms.append("(define %s (%s %d))" % (h, nm, kk))
+                if holder.startswith("(list"):
+                    forms.append("(list ((car %s)) ((car (cdr %s))))" % (h, h))
+                elif holder.startswith("(vector"):
+                    forms.append("(list ((vector-ref %s 0)) ((vector-ref %s 1)))" % (h, h))
+                else:
+                    forms.append("(list ((car %s)) ((cdr %s)))" % (h, h))
+            elif k < 0.82:
                 forms.append(self.list_(env, self.max_depth - 1))
             else:
                 forms.append(self.int_(env, self.max_depth))
